@@ -309,12 +309,18 @@ WebSocketMsg WebSocket::receive()
 			return msg.fix();
 		}
 
-		buffer.resize(buffer.length() + len);
-		if (len > 0 && _socket.read(buffer.data() + buffer.length() - len, len) != len) // the stream ended inside the payload
+		// len is what the peer announced: the buffer grows as the payload actually arrives
+		for (int got = 0; got < len;)
 		{
-			_closed = true;
-			_socket.close();
-			return msg.fix();
+			int chunk = (len - got < (1 << 16)) ? len - got : (1 << 16);
+			buffer.resize(got + chunk);
+			if (_socket.read(buffer.data() + got, chunk) != chunk) // the stream ended inside the payload
+			{
+				_closed = true;
+				_socket.close();
+				return msg.fix();
+			}
+			got += chunk;
 		}
 
 		DEBUG_LOG("frame: op %i fin %i len %i\n", opcode, fin ? 1 : 0, (int)len);
